@@ -70,14 +70,25 @@ def register(lib):
 
     def extend(s, items):
         buf = s[0]
-        I.structural(buf)
+        I.appending(buf)
         buf.extend(items)
+
+    def S_flat(items):
+        out = []
+        for it in items:
+            if type(it) is Guarded:
+                out.extend(S_flat(it.items))
+            else:
+                out.append(it)
+        return out
 
     def utf8_len(items):
         n = 0
         for it in items:
             if type(it) is int:
                 n += 1 if it < 0x80 else (2 if it < 0x800 else (3 if it < 0x10000 else 4))
+            elif type(it) is Term and T.umax(it, 32) < 0x80:
+                n += 1          # a symbolic character known to be ASCII is one byte
             else:
                 raise Unsupported('byte length of a string with symbolic pieces')
         return n
@@ -113,8 +124,9 @@ def register(lib):
             return utf8_len(items)
         except Unsupported:
             # only used as a capacity hint in this crate; the value is otherwise unobservable
-            I.lib_used['str::len (symbolic content: capacity hint, value havoc)'] = 1
-            return T.var('strlen_%d' % I.alloc, 64)
+            I.lib_used['str::len (symbolic content: bounded havoc)'] = 1
+            cnt = len(S_flat(items))
+            return T.var('strlen_%d' % I.alloc, 64, below=4 * cnt + 1)
 
     @reg(r'^String::is_empty$|^core::str::<impl str>::is_empty$', 'str::is_empty')
     def _s_empty(fr, name, args, ops):
@@ -166,6 +178,13 @@ def register(lib):
                 out.append(hay[i])
                 i += 1
         return new_string(out)
+
+    @reg(r'^core::str::<impl str>::chars$', 'str::chars')
+    def _chars(fr, name, args, ops):
+        items = str_items(args[0])
+        if any(type(x) not in (int, Term) for x in items):
+            raise Unsupported('chars() over a string with conditional pieces')
+        return I.mk([I.mk(list(items)), 0], 'ArrIter')
 
     # ---- fmt
     @reg(r'^core::fmt::rt::Argument::<>::new_(display|lower_hex|debug|upper_hex)::<(.*)>$|^core::fmt::rt::Argument::new_(display|lower_hex|debug|upper_hex)::<(.*)>$', 'fmt::Argument::new_*')
